@@ -159,6 +159,12 @@ def check(model, tier):
         if call_attr(call) in ("__setattr__", "setattr") and len(call.args) >= 3 and isinstance(call.args[1], ast.Constant) and call.args[1].value == "name":
             found = True
             val = call.args[2]
+            if isinstance(val, ast.Name):
+                # a local holding the generated name
+                binds = [n.value for n in ast.walk(post.node) if isinstance(n, ast.Assign) and any(isinstance(t, ast.Name) and t.id == val.id for t in n.targets)]
+                binds += [n.value for n in ast.walk(post.node) if isinstance(n, ast.NamedExpr) and isinstance(n.target, ast.Name) and n.target.id == val.id]
+                if len(binds) == 1:
+                    val = binds[0]
             ok = isinstance(val, ast.Call) and call_attr(val) == "get_relation_name" and val.args and isinstance(val.args[0], ast.Name) and val.args[0].id in post.params
             if ok:
                 run.ok("R19.2", "LeafRelation.__post_init__:default-name", {"store": src(call)})
